@@ -2,6 +2,7 @@ package main
 
 import (
 	"fmt"
+	"go/constant"
 	"go/token"
 	"go/types"
 	"os"
@@ -22,14 +23,16 @@ func checkC02(c *Ctx) {
 		"(T1) in fileKey.DecryptSegment every use of the output writer is dominated by the success edge of cipher.AEAD.Open (verify before release), a failed Open makes the function return a non-nil error, the ciphertext handed to Open is the segment parameter, and the nonce handed to Open depends on both the segment number and the finality flag (through the nonce builder, whose result bytes must depend on both parameters), every return that may carry a nil error lies behind Open's success edge (no exception for short or empty segments), and the 32 bits of the segment number reach the nonce injectively (binary PutUint32 of the number, or four byte stores byte(num>>{0,8,16,24}) at four distinct constant offsets, in a window disjoint from the finality byte and not overwritten afterwards; unclassifiable layouts are UNDECIDED); " +
 		"(T3) in processSegments, along every path, the first Close/CloseWithError on the pipe is an error close whenever a source-reader error other than io.EOF (io.ErrUnexpectedEOF is NOT end of input, also not behind io.ReadFull/ReadAtLeast; an error variable re-assigned from a sentinel does not count as the source error) or a processFn error is pending, and no return leaves the pipe open with such an error pending; " +
 		"(T4) the segment number handed to processFn is a loop-carried counter that changes in every iteration, and after a call made with last=true no further segment is processed; " +
+		"(T4-counter-range) on every path between two processFn calls an edge bounds the counter so that the next number neither wraps (same width) nor is truncated (narrowing conversion of a wider counter) — processSegments is shared by Encrypt and Decrypt, so a missing bound is nonce reuse on one side and lost position binding on the other; " +
+		"(H1/H2) in readHeader a source-read error not established to be io.EOF is returned (never dropped on a success return, also when it arrives together with the bytes that complete the header), and the reader pushed back into *in still contains the source unless the source returned io.EOF; " +
 		"(T5) a clean close of the stream is reachable only after a processFn call made with last=true (from the entry: T5-first, after a non-final call: T5-next); " +
 		"(T7) Decrypt returns the reader half of an io.Pipe whose writer half is driven by processSegments with fileKey.DecryptSegment bound to the file key imported from the manifest. " +
-		"NOT decided: that AEAD rejects a given mutation (trusted primitive), that the bytes released are a prefix of the plaintext as a runtime fact, byte-exact round trip (C01), anything about the header MAC (NOTE only: every payload byte is authenticated by the AEAD under a key derived from the file key and nonce prefix, so the statement holds with or without the MAC), constant-time behaviour, the number of bytes written, the Read-chunking contract of the fill loop (C01-R1), readHeader's handling of a source error delivered together with the last header byte (NOTE only)."
+		"NOT decided: that AEAD rejects a given mutation (trusted primitive), that the bytes released are a prefix of the plaintext as a runtime fact, byte-exact round trip (C01), anything about the header MAC (NOTE only: every payload byte is authenticated by the AEAD under a key derived from the file key and nonce prefix, so the statement holds with or without the MAC), constant-time behaviour, the number of bytes written, the Read-chunking contract of the fill loop (C01-R1)."
 	r.Assumptions = append(r.Assumptions,
 		"cipher.AEAD.Open returns a non-nil error for any ciphertext/nonce pair not produced by Seal under the same key (trusted primitive)",
 		"package-level sentinel errors (ErrDecryptionFailed, io.ErrUnexpectedEOF, ...) are non-nil and not reassigned",
 		"io.PipeWriter: the first Close/CloseWithError wins (documented: later calls do not overwrite the error)",
-		"the segment counter does not wrap within one stream (x+positive constant is treated as non-zero by the path explorer; 2^32 segments = 256 TB)",
+		"the path explorer treats x+positive constant as non-zero (no wrap); that the segment counter cannot wrap is itself decided by rule T4-counter-range",
 		"a phi that may carry an error value is treated as carrying it when it is tested against nil (error variables are not overwritten between the call and the test)")
 
 	r.Rule("C02.T1-verify-before-release", "DecryptSegment: every use of the output writer is dominated by the err==nil edge of AEAD.Open", 1)
@@ -40,9 +43,12 @@ func checkC02(c *Ctx) {
 	r.Rule("C02.T1-nonce-binding", "the nonce handed to Open depends on the segment number and on the finality flag", 2)
 	r.Rule("C02.T3-error-surfaces", "processSegments: no clean close and no open return while a non-EOF source error or a processFn error is pending", 4)
 	r.Rule("C02.T4-counter", "processSegments: the segment number handed to processFn is a loop-carried counter that changes every iteration", 1)
+	r.Rule("C02.T4-counter-range", "processSegments: between two segments the counter is checked against a bound so that the number handed to processFn never wraps or is truncated (shared by Encrypt and Decrypt)", 1)
 	r.Rule("C02.T4-final-is-last", "processSegments: after a processFn call with last=true no further segment is processed", 1)
 	r.Rule("C02.T5-first", "processSegments: from the entry, a clean close is not reachable without a processFn call", 1)
 	r.Rule("C02.T5-next", "processSegments: after a processFn call with last=false, a clean close is not reachable without another call", 1)
+	r.Rule("C02.H1-header-read-error-returned", "readHeader: a source-read error not established to be io.EOF is returned (never dropped on a success return)", 1)
+	r.Rule("C02.H2-header-keeps-source", "readHeader: the reader pushed back into *in still contains the source unless the source returned io.EOF", 1)
 	r.Rule("C02.T7-wiring", "Decrypt returns the pipe fed by processSegments(…, fk.DecryptSegment, …)", 2)
 
 	dec := p.Func(c02Pkg, "fileKey.DecryptSegment")
@@ -52,6 +58,7 @@ func checkC02(c *Ctx) {
 	c02CheckDecryptSegment(p, r, dec)
 	c02CheckProcessSegments(p, r, ps)
 	c02CheckWiring(p, r, decrypt, ps, dec)
+	c02CheckReadHeader(p, r, p.Func(c02Pkg, "readHeader"))
 	c02Notes(p, r, decrypt)
 
 	c.Fixture("c02seg", func(fp *Prog, fr *Report) {
@@ -65,6 +72,8 @@ func checkC02(c *Ctx) {
 				c02CheckDecryptSegment(fp, fr, fn)
 			case strings.HasSuffix(low, "loop"):
 				c02CheckProcessSegments(fp, fr, fn)
+			case strings.HasSuffix(low, "header"):
+				c02CheckReadHeader(fp, fr, fn)
 			}
 		}
 		if os.Getenv("KC_C02_DEBUG") != "" {
@@ -943,13 +952,37 @@ func c02Counter(r *Report, L *c02Loop) {
 			continue
 		}
 		n := cl.Call.Args[L.numIdx]
-		switch x := n.(type) {
+		// look through integer conversions (narrowing is judged by the range rule below)
+		inner := n
+		for i := 0; i < 3; i++ {
+			cv, ok := inner.(*ssa.Convert)
+			if !ok {
+				break
+			}
+			if _, isInt := c02IntRange(cv.X.Type()); !isInt {
+				break
+			}
+			inner = cv.X
+		}
+		switch x := inner.(type) {
 		case *ssa.Const:
 			// a constant is fine only if the call is not in a loop (single final call after a loop would still need the count)
 			r.Violation("C02.T4-counter", construct, p.Pos(cl.Pos()), "the segment number handed to the segment processor is the constant "+x.Name()+": every segment is sealed/opened at the same position, so segments can be swapped, duplicated or dropped without detection")
 		case *ssa.Phi:
 			why := ""
 			changes := 0
+			var step int64
+			stepKnown := true
+			noteStep := func(bo *ssa.BinOp) {
+				k, ok := c02ConstInt(bo.Y, 0)
+				if !ok || bo.Op != token.ADD || k <= 0 {
+					stepKnown = false
+					return
+				}
+				if k > step {
+					step = k
+				}
+			}
 			for _, e := range x.Edges {
 				if _, isC := e.(*ssa.Const); isC {
 					continue
@@ -961,6 +994,7 @@ func c02Counter(r *Report, L *c02Loop) {
 				if bo, ok := e.(*ssa.BinOp); ok && c02Carries(bo.X, x) {
 					if k, ok := bo.Y.(*ssa.Const); ok && k.Value != nil && k.Value.ExactString() != "0" {
 						changes++
+						noteStep(bo)
 						continue
 					}
 				}
@@ -971,6 +1005,8 @@ func c02Counter(r *Report, L *c02Loop) {
 						bo, ok := e2.(*ssa.BinOp)
 						if !ok || !c02Carries(bo.X, x) {
 							okAll = false
+						} else {
+							noteStep(bo)
 						}
 					}
 					if okAll {
@@ -987,11 +1023,196 @@ func c02Counter(r *Report, L *c02Loop) {
 				r.Undecide("%s: %s", construct, why)
 				continue
 			}
-			r.Check(why == "", "C02.T4-counter", construct, p.Pos(cl.Pos()), "loop-carried counter, changed by a non-zero constant on every back edge", why)
+			if r.Check(why == "", "C02.T4-counter", construct, p.Pos(cl.Pos()), "loop-carried counter, changed by a non-zero constant on every back edge", why) {
+				c02CounterRange(r, L, cl, x, n, step, stepKnown)
+			}
 		default:
 			r.Undecide("%s: the segment number is neither a loop-carried counter nor a constant (%T); cannot classify", construct, n)
 		}
 	}
+}
+
+// c02IntRange returns the largest value of an integer type (int/uint are taken as 64 bit).
+func c02IntRange(t types.Type) (max uint64, ok bool) {
+	b, isB := t.Underlying().(*types.Basic)
+	if !isB {
+		return 0, false
+	}
+	switch b.Kind() {
+	case types.Uint8:
+		return 1<<8 - 1, true
+	case types.Int8:
+		return 1<<7 - 1, true
+	case types.Uint16:
+		return 1<<16 - 1, true
+	case types.Int16:
+		return 1<<15 - 1, true
+	case types.Uint32:
+		return 1<<32 - 1, true
+	case types.Int32:
+		return 1<<31 - 1, true
+	case types.Uint64, types.Uint, types.Uintptr:
+		return 1<<64 - 1, true
+	case types.Int64, types.Int:
+		return 1<<63 - 1, true
+	}
+	return 0, false
+}
+
+// c02CounterRange (T4-counter-range): the value handed to processFn is
+// injective in the loop counter over the whole range the loop can reach: on
+// every path from one processFn call to the next, an edge establishes that the
+// counter (plus its step) still fits both its own type and the uint32
+// parameter. Without it the counter wraps (same width) or is truncated
+// (narrowing conversion of a wider counter): segment i and segment i+2^32 get
+// the same nonce. processSegments is shared by Encrypt and Decrypt, so this
+// is nonce reuse when encrypting and lost position binding when decrypting.
+func c02CounterRange(r *Report, L *c02Loop, cl *ssa.Call, ctr *ssa.Phi, arg ssa.Value, step int64, stepKnown bool) {
+	p := L.p
+	construct := L.name + " segment number range"
+	rule := "C02.T4-counter-range"
+	ctrMax, ok1 := c02IntRange(ctr.Type())
+	argMax, ok2 := c02IntRange(arg.Type())
+	if !ok1 || !ok2 || !stepKnown || step <= 0 {
+		r.Undecide("%s: counter type, parameter type or step not recognised; cannot classify", construct)
+		return
+	}
+	limit := ctrMax
+	if argMax < limit {
+		limit = argMax
+	}
+	// guard edges: edges on which counter(+c) is bounded so that the next value fits
+	isCtr := func(v ssa.Value) (add int64, ok bool) {
+		for i := 0; i < 3; i++ {
+			if cv, isCv := v.(*ssa.Convert); isCv {
+				// only widening (or same-size) views of the counter keep its value
+				if m, isInt := c02IntRange(cv.Type()); isInt && m >= ctrMax {
+					v = cv.X
+					continue
+				}
+			}
+			break
+		}
+		if v == ssa.Value(ctr) {
+			return 0, true
+		}
+		if bo, isBo := v.(*ssa.BinOp); isBo && bo.Op == token.ADD && bo.X == ssa.Value(ctr) {
+			if k, ok := c02ConstInt(bo.Y, 0); ok && k > 0 {
+				return k, true
+			}
+		}
+		return 0, false
+	}
+	guardEdge := func(from, to *ssa.BasicBlock) bool {
+		if len(from.Instrs) == 0 || len(from.Succs) != 2 || from.Succs[0] == from.Succs[1] {
+			return false
+		}
+		ifi, ok := from.Instrs[len(from.Instrs)-1].(*ssa.If)
+		if !ok {
+			return false
+		}
+		cmp, ok := decodeCond(ifi.Cond, from.Succs[0] == to)
+		if !ok {
+			return false
+		}
+		x, y, op := cmp.X, cmp.Y, cmp.Op
+		if _, isC := isCtr(x); !isC {
+			// constant on the left: mirror
+			x, y = y, x
+			switch op {
+			case token.LSS:
+				op = token.GTR
+			case token.GTR:
+				op = token.LSS
+			case token.LEQ:
+				op = token.GEQ
+			case token.GEQ:
+				op = token.LEQ
+			}
+		}
+		add, isC := isCtr(x)
+		if !isC {
+			return false
+		}
+		kc, isK := y.(*ssa.Const)
+		if !isK || kc.Value == nil || kc.Value.Kind() != constant.Int {
+			return false
+		}
+		ku, exact := constant.Uint64Val(kc.Value)
+		if !exact {
+			return false
+		}
+		// upper bound established for (counter+add) on this edge
+		var bound uint64
+		switch op {
+		case token.LSS:
+			if ku == 0 {
+				return false
+			}
+			bound = ku - 1
+		case token.LEQ:
+			bound = ku
+		case token.NEQ:
+			// excludes one value: a bound only if that value is the largest the type can hold
+			if ku != ctrMax || add != 0 {
+				return false
+			}
+			bound = ku - 1
+		default:
+			return false
+		}
+		// next value = counter + step; (counter+add) <= bound  =>  counter+step <= bound - add + step
+		next := bound - uint64(add) + uint64(step)
+		if next < bound-uint64(add) { // overflow of the computation itself
+			return false
+		}
+		return next <= limit
+	}
+	isCall := map[ssa.Instruction]bool{}
+	for _, x := range L.calls {
+		isCall[x] = true
+	}
+	isClose := map[ssa.Instruction]bool{}
+	for _, x := range L.closes {
+		isClose[x] = true
+	}
+	if L.lastIdx >= len(cl.Call.Args) {
+		return
+	}
+	lv := cl.Call.Args[L.lastIdx]
+	env := &c02Env{bind: map[ssa.Value]ssa.Value{}, known: map[ssa.Value]bool{}}
+	if k, isConst := lv.(*ssa.Const); isConst {
+		if k.Value != nil && k.Value.ExactString() == "true" {
+			r.Trivial(rule, construct, p.Pos(cl.Pos()), "this call site always passes last=true (no next segment)")
+			return
+		}
+	} else {
+		c02LearnAssumption(env, lv, false, 0)
+	}
+	hits, exhausted := c02ExploreEdges(cl.Block(), instrIndex(cl)+1, env, func(in ssa.Instruction) c02Action {
+		switch {
+		case isCall[in]:
+			return c02Target
+		case isClose[in]:
+			return c02Stop
+		}
+		return c02Continue
+	}, guardEdge)
+	if !exhausted {
+		r.Undecide("%s: path exploration exceeded its budget", construct)
+		return
+	}
+	if len(hits) == 0 {
+		r.OK(rule, construct, p.Pos(cl.Pos()), fmt.Sprintf("between two segments the counter is bounded so that the next number fits (limit %d)", limit))
+		return
+	}
+	how := fmt.Sprintf("the %s counter wraps around", ctr.Type())
+	if argMax < ctrMax {
+		how = fmt.Sprintf("the %s counter is truncated by the conversion to %s", ctr.Type(), arg.Type())
+	}
+	r.Violation(rule, construct, p.Pos(instrPos(hits[0].Instr)),
+		"the next segment can be processed without any bound on the segment counter having been checked: after 2^32 segments "+how+" and segment i+2^32 is handed the same number — hence the same nonce — as segment i. processSegments is shared by Encrypt and Decrypt: when encrypting this is nonce reuse under one key, when decrypting a segment authenticates at two positions (swap/duplication undetected). An overflow guard (counter compared with a constant bound, failing side closing the stream with an error) must lie on every path between two segments",
+		c02Trail(p, hits[0].Trail)...)
 }
 
 // c02Finality (T4-final-is-last, T5-first, T5-next) with the path explorer.
